@@ -1,6 +1,5 @@
 SPECIFICATION Spec
 INVARIANT EvalOrder
 INVARIANT LrOK
-INVARIANT InBudget
 PROPERTY LamAscends
 CHECK_DEADLOCK FALSE
